@@ -260,6 +260,13 @@ func runC26(tb stat.TB, c c26Case) {
 			if len(rem) > 0 && uint64(hdr+entrySize(rem[0])+8) > uint64(c.Count) {
 				// not even the next entry fits: the statement wants NFS3ERR_TOOSMALL
 				tooSmallSeen = true
+				if len(res.Entries) > 1 {
+					// (the known finding is one entry in an oversized reply; several entries ignore the limit altogether)
+					if stat.Violate(tb, id, check, "count-below-one-entry-returns-several-entries", c, "%s: not even the next entry fits (header %d + entry %d + trailer 8 > %d) but the server replied OK with %d entries in %d bytes", what, hdr, entrySize(rem[0]), c.Count, len(res.Entries), resokSize) {
+						return
+					}
+					return
+				}
 				if stat.Violate(tb, id, check, "count-below-one-entry-not-TOOSMALL", c, "%s: not even the next entry fits (header %d + entry %d + trailer 8 > %d) but the server replied OK with %d entries in %d bytes instead of NFS3ERR_TOOSMALL", what, hdr, entrySize(rem[0]), c.Count, len(res.Entries), resokSize) {
 					knownTooSmall = true
 				} else {
